@@ -383,8 +383,8 @@ func runDoc(d *Doc, timeout time.Duration, tracePages int) Outcome {
 			o.Site = "hang@many-pages"
 			o.Msg = fmt.Sprintf("%d pages made when the watchdog fired", np)
 		}
-		if len(o.Frames) > 12 {
-			o.Frames = append(o.Frames[:8:8], o.Frames[len(o.Frames)-4:]...)
+		if len(o.Frames) > 60 {
+			o.Frames = append(o.Frames[:40:40], o.Frames[len(o.Frames)-6:]...)
 		}
 	}
 finished:
@@ -439,7 +439,7 @@ func stackClasses(frames []string) []string {
 		{"line-breaking", "text.(*TextLayoutPango)"}, {"line-breaking", "text.(*FontConfigurationGotext)"}, {"line-breaking", "text.(*FontConfigurationPango)"},
 		{"line-breaking", "text.SplitFirstLine"}, {"line-breaking", "layout.getNextLinebox"}, {"line-breaking", "layout.splitTextBox"},
 		{"line-breaking", "layout.inlineMinContentWidth"}, {"line-breaking", "layout.inlineMaxContentWidth"}, {"line-breaking", "layout.inlineLineWidths"},
-		{"columns", "layout.columnsLayout"}, {"table", "layout.tableLayout"}, {"table", "layout.autoTableLayout"}, {"table", "layout.tableAndColumnsPreferredWidths"},
+		{"footnote-area", "layoutContext).updateFootnoteArea"}, {"columns", "layout.columnsLayout"}, {"table", "layout.tableLayout"}, {"table", "layout.autoTableLayout"}, {"table", "layout.tableAndColumnsPreferredWidths"},
 		{"flex", "layout.flexLayout"}, {"grid", "layout.gridLayout"}, {"float", "layout.floatLayout"}, {"float", "layout.avoidCollisions"},
 		{"absolute", "layout.absoluteLayout"}, {"margin-boxes", "layout.makeMarginBoxes"},
 		{"drawing", "document.drawContext"}, {"drawing", "document.(*Document).Write"},
